@@ -482,6 +482,12 @@ def _workload(tier, rng, shard, nshards):
             r = rng.random()
             if r < 0.3:
                 off = rng.choice(OFFSETS)
+            elif r < 0.52 and ents and kind == "I":
+                # the entry's end, as someone would type it (0.3 for what the tier holds as 0.1 + 0.2) or to the nanosecond: the entry is
+                # clipped at zero and a remainder of 1e-17 .. 1e-9 s stays - an interval still
+                e = rng.choice(ents)
+                off = -rng.choice([float(repr(round(e[1], 9))), e[1] - 1e-9, e[1] * (1 - 1e-15)])
+                REC.cls("C09:shift-leaves-a-sliver-above-zero")
             elif r < 0.6 and ents:
                 off = -rng.choice(ents)[rng.randrange(0, 2 if kind == "I" else 1)]
             elif r < 0.7:
